@@ -24,8 +24,15 @@ func (x *c20SX) callValue(call *ast.CallExpr, st *c20St) []c20EV {
 			switch {
 			case it.st.ctl != c20cRun:
 				out = append(out, c20EV{it.st, c20V{}})
+			case f.v.k == c20kFunc && f.v.lit == nil:
+				// a declared function or a method value: the ordinary call of that function
+				fn, _ := f.v.obj.(*types.Func)
+				out = append(out, x.apply(fn, call, f.v.base, it.vs, it.st)...)
 			case f.v.k == c20kFunc:
 				out = append(out, x.callClosure(f.v, call, it.vs, it.st)...)
+			case f.v.k == c20kNil:
+				it.st.ctl = c20cPanic // call of a nil function
+				out = append(out, c20EV{it.st, c20V{}})
 			default:
 				out = append(out, x.apply(nil, call, nil, it.vs, it.st)...)
 			}
@@ -121,9 +128,15 @@ func c20HasClosure(vs []c20V) bool {
 		switch v.k {
 		case c20kFunc:
 			return true
-		case c20kTuple:
+		case c20kTuple, c20kAgg:
 			if c20HasClosure(v.vs) {
 				return true
+			}
+		case c20kObj:
+			for _, f := range v.fields {
+				if c20HasClosure([]c20V{f}) {
+					return true
+				}
 			}
 		}
 	}
